@@ -8,6 +8,7 @@ package c01
 
 import (
 	"fmt"
+	"strings"
 	"testing"
 
 	"verif/bk"
@@ -48,7 +49,38 @@ func spaces() []*opseq.Space {
 			New: func() (opseq.Sys, error) { return bk.NewStoreSys(sp, u2, true) },
 		})
 	}
+	// third alphabet, file-per-blob stores only: two blobs whose refs share the hash name and
+	// the first four digest digits, i.e. that live in the same leaf directory of the sharded
+	// tree, plus one elsewhere (enumeration cursors and limits inside one directory)
+	pa, pb := leafPair()
+	u3 := []hs.Blob{pa, pb, hs.BA}
+	for i := range specs {
+		sp := &specs[i]
+		if !strings.Contains(sp.Name, "localdisk") && !strings.Contains(sp.Name, "files") {
+			continue
+		}
+		out = append(out, &opseq.Space{
+			Name: sp.Name + "/same-leaf-dir", Ops: bk.StoreOps(u3), Depth: 3,
+			SigPrefix: "C01|" + sp.Name, WorkBase: i*7 + 5,
+			New: func() (opseq.Sys, error) { return bk.NewStoreSys(sp, u3, false) },
+		})
+	}
 	return out
+}
+
+// leafPair finds (deterministically) two small blobs whose sha224 refs agree in the first
+// four hex digits.
+func leafPair() (hs.Blob, hs.Blob) {
+	seen := map[string]hs.Blob{}
+	for i := 0; ; i++ {
+		b := hs.Mk(fmt.Sprintf("leaf%d", i), []byte(fmt.Sprintf("same leaf directory candidate %d", i)), "")
+		k := b.Ref.Digest()[:4]
+		if o, ok := seen[k]; ok {
+			o.Name, b.Name = "leafA", "leafB"
+			return o, b
+		}
+		seen[k] = b
+	}
 }
 
 func TestCheck(t *testing.T) {
